@@ -68,10 +68,10 @@ func checkC03(c *Ctx) {
 		"(S-accept) right-sized inputs are not rejected by a size guard, reach no panicking precondition of crypto/cipher, and the returned ciphertext/tag have the lengths the decrypting side insists on; " +
 		"(S-key/S-nonce/S-tag/S-length/S-unsupported) a key, nonce, tag, plaintext/ciphertext length or algorithm name of the wrong size/kind makes every path return the package sentinel without output and without reaching a panicking precondition; the three ECDSA names are distinguishable on their path (otherwise a key on the wrong curve cannot be refused); " +
 		"(T-reject) if the authenticating/verifying primitive (AEAD.Open, hmac.Equal, key-unwrap integrity check, rsa.Verify*/Decrypt*, ecdsa/ed25519 verify) reports failure no path returns success; " +
-		"(AEAD-cbc-hmac) aescbcaead.Open rejects wrong nonce sizes, partial blocks, short inputs and tag mismatches with an error instead of panicking, Seal/Open MAC (AAD, IV, ciphertext) in the RFC 7518 5.2.2.1 layout with AL in bits, the constructors carry the RFC 7518 5.2.3-5.2.5 parameters; " +
-		"(KW-rfc3394) aeskw.Wrap/Unwrap reject inputs that are not whole 64-bit blocks / too short with an error instead of panicking or silently ignoring bytes, fail closed on the IV check and return len+8 / len-8 bytes; " +
+		"(AEAD-cbc-hmac) aescbcaead.Open rejects wrong nonce sizes, partial blocks, short inputs and tag mismatches with an error instead of panicking, its accepting path compares all tagSize bytes of the received and of the computed tag (16/24/32), Seal/Open MAC (AAD, IV, ciphertext) in the RFC 7518 5.2.2.1 layout with AL in bits, the constructors carry the RFC 7518 5.2.3-5.2.5 parameters; " +
+		"(KW-rfc3394) aeskw.Wrap/Unwrap reject inputs that are not whole 64-bit blocks / too short with an error instead of panicking or silently ignoring bytes, fail closed on the IV check, which compares all 8 bytes of A, return len+8 / len-8 bytes, and in both the loop-variant step counter reaches a big-endian byte encoding (binary.BigEndian.PutUintN or single-byte stores of t>>k) with at least its low 32 bits — a narrowing of t to 8/16 bits or a little-endian encoding is reported, shapes the bit-flow analysis cannot classify are UNDECIDED; " +
 		"(PAD-pkcs7) PadPKCS7 returns len+16-len%16 bytes. " +
-		"NOT decided: that decryption inverts encryption byte for byte, interoperability of the produced bytes beyond primitive/parameter/layout selection (trusted: Go standard library, x/crypto; the RFC 3394 round structure, the PKCS#7 pad byte values, which half of the CBC-HMAC key is the MAC key are content-level facts pinned only by the repository's vector tests), that every single-byte mutation is rejected (follows from the primitives' authentication, which is assumed), PSS salt options, constant-time behaviour, RSA key-size handling inside the standard library, the Ed25519 curve check beyond key kind."
+		"NOT decided: that decryption inverts encryption byte for byte, interoperability of the produced bytes beyond primitive/parameter/layout selection (trusted: Go standard library, x/crypto; the RFC 3394 round structure beyond the counter encoding (number of rounds, that the encoded counter is XORed into A at the right byte positions), the PKCS#7 pad byte values, which half of the CBC-HMAC key is the MAC key are content-level facts pinned only by the repository's vector tests), that every single-byte mutation is rejected (follows from the primitives' authentication, which is assumed), PSS salt options, constant-time behaviour, RSA key-size handling inside the standard library, the Ed25519 curve check beyond key kind."
 	r.Assumptions = append(r.Assumptions,
 		"documented contracts of the standard library: aes.NewCipher accepts exactly 16/24/32-byte keys; cipher.NewGCM on an AES block never fails and has a 12-byte nonce and 16-byte tag; NewCBCEncrypter/Decrypter panic unless len(iv)==16; BlockMode.CryptBlocks panics on partial blocks or a short destination; AEAD.Seal/Open panic on a nonce of the wrong length; chacha20poly1305.New/NewX accept exactly 32-byte keys; crypto.Hash(0).New panics",
 		"package-level error variables (the sentinels) are non-nil and never reassigned",
@@ -87,8 +87,8 @@ func checkC03(c *Ctx) {
 	r.Rule(c03RLength, "plaintext/ciphertext that is not a whole number of blocks is rejected with the length sentinel (CBC) / an error (key wrap)", 12)
 	r.Rule(c03RUnsup, "an unknown algorithm name yields ErrUnsupportedAlgorithm from every dispatcher", 8)
 	r.Rule(c03RReject, "failure of the authenticating/verifying primitive never reaches a success return", 28)
-	r.Rule(c03RAead, "aescbcaead: Open returns errors (never panics) for wrong nonce / partial block / short input / bad tag; RFC 7518 parameters and MAC layout; NonceSize/Overhead", 11)
-	r.Rule(c03RKW, "aeskw: Wrap/Unwrap reject malformed lengths with an error, fail closed on the IV check, accept well-formed input", 5)
+	r.Rule(c03RAead, "aescbcaead: Open returns errors (never panics) for wrong nonce / partial block / short input / bad tag; RFC 7518 parameters and MAC layout; the whole tag (tagSize bytes on both sides) takes part in the comparison; NonceSize/Overhead", 12)
+	r.Rule(c03RKW, "aeskw: Wrap/Unwrap reject malformed lengths with an error, fail closed on the IV check which compares all 8 bytes, accept well-formed input; the step counter t reaches its big-endian byte encoding with at least its low 32 bits in both directions (no narrowing to 8/16 bits, no little-endian)", 8)
 	r.Rule(c03RPad, "PadPKCS7(buf,16) returns len(buf)+16-len(buf)%16 bytes and no error", 1)
 
 	// anchors ---------------------------------------------------------------
@@ -123,6 +123,7 @@ func checkC03(c *Ctx) {
 	r.Stats["scenario_runs"] = e.execs
 
 	c.Fixture("c03sym", func(fp *Prog, fr *Report) { c03FixtureRule(fp, fr) })
+	c.Fixture("c03kw", func(fp *Prog, fr *Report) { c03KWFixtureRule(fp, fr) })
 }
 
 // listedNames evaluates the []string literal a Supported*Algorithms function
@@ -1102,6 +1103,70 @@ func (e *c03Env) checkUnsupported(fns []*ssa.Function) {
 	}
 }
 
+// c03Comparators: the functions through which a tag / IV is compared.
+var c03Comparators = map[string]bool{"crypto/hmac.Equal": true, "crypto/subtle.ConstantTimeCompare": true, "bytes.Equal": true}
+
+// wholeCompared: on every success outcome of run the comparison functions
+// must have been given, in total, at least `need` bytes on each side — every
+// byte of the received tag / IV has to take part in the accept decision. Fewer
+// bytes => VIOLATION; no known comparison function on the path, or operands of
+// unknown length => imprecise (UNDECIDED).
+func (e *c03Env) wholeCompared(run c03Run, need int64, what string) c03Verdict {
+	v := c03Verdict{truncated: run.truncated, n: len(run.outs)}
+	for _, o := range run.outs {
+		if !c03Success(o) {
+			continue
+		}
+		var total int64
+		seen, unknown := false, false
+		var parts []string
+		for _, ev := range o.Events {
+			if !c03Comparators[ev.Name] || len(ev.Args) != 2 {
+				continue
+			}
+			seen = true
+			a, b := c03KnownLen(ev.Args[0]), c03KnownLen(ev.Args[1])
+			if a < 0 || b < 0 {
+				unknown = true
+				continue
+			}
+			if b < a {
+				a = b
+			}
+			total += a
+			parts = append(parts, fmt.Sprintf("%s over %d bytes", ev.Name, a))
+		}
+		switch {
+		case !seen:
+			v.imprecise = run.desc + ": the accepting path uses none of hmac.Equal / subtle.ConstantTimeCompare / bytes.Equal; how the " + what + " is compared is unknown to the checker"
+		case unknown:
+			v.imprecise = run.desc + ": a comparison operand has a length the interpreter cannot derive"
+		case total < need:
+			if v.bad == "" {
+				v.bad = fmt.Sprintf("%s: the accepting path compares only %d of the %d bytes of the %s (%s): bytes %d.. are not authenticated, any change to them is accepted", run.desc, total, need, what, strings.Join(parts, ", "), total)
+			}
+		}
+	}
+	return v
+}
+
+// cmpGuard: a Fail-scenario counterexample only means something if the code
+// compares through a function the Fail scenario can make fail.
+func (e *c03Env) cmpGuard(run c03Run, v c03Verdict) c03Verdict {
+	if v.bad == "" {
+		return v
+	}
+	for _, o := range run.outs {
+		for _, ev := range o.Events {
+			if c03Comparators[ev.Name] {
+				return v
+			}
+		}
+	}
+	v.imprecise, v.bad, v.more = v.bad+" (no known comparison function on the path)", "", nil
+	return v
+}
+
 // ---- aescbcaead ----------------------------------------------------------------
 
 func (e *c03Env) checkAEAD() {
@@ -1147,7 +1212,7 @@ func (e *c03Env) checkAEAD() {
 	pos := p.Pos(open.Pos())
 	variants := []struct{ tag, enc int64 }{{16, 16}, {24, 24}, {32, 32}}
 
-	var vNonce, vBlocks, vShort, vFail, vAcc c03Verdict
+	var vNonce, vBlocks, vShort, vFail, vAcc, vWhole c03Verdict
 	for _, va := range variants {
 		for _, nl := range []int64{0, 8, 12, 15, 17, 24} {
 			vNonce.merge(e.allRejected(e.run(mk(va.tag, va.enc, false), open, oargs(nl, 32+va.tag), fmt.Sprintf("tag size %d, %d-byte nonce, tag over it valid", va.tag, nl)), ""))
@@ -1158,13 +1223,17 @@ func (e *c03Env) checkAEAD() {
 		for _, ct := range []int64{0, 1, va.tag - 1} {
 			vShort.merge(e.allRejected(e.run(mk(va.tag, va.enc, false), open, oargs(16, ct), fmt.Sprintf("tag size %d, %d-byte input", va.tag, ct)), ""))
 		}
-		vFail.merge(e.noSuccess(e.run(mk(va.tag, va.enc, true), open, oargs(16, 32+va.tag), fmt.Sprintf("tag size %d, tag mismatch", va.tag))))
-		vAcc.merge(e.accepted(e.run(mk(va.tag, va.enc, false), open, oargs(16, 32+va.tag), fmt.Sprintf("tag size %d, 16-byte nonce, 32+tag bytes", va.tag))))
+		frun := e.run(mk(va.tag, va.enc, true), open, oargs(16, 32+va.tag), fmt.Sprintf("tag size %d, tag mismatch", va.tag))
+		vFail.merge(e.cmpGuard(frun, e.noSuccess(frun)))
+		arun := e.run(mk(va.tag, va.enc, false), open, oargs(16, 32+va.tag), fmt.Sprintf("tag size %d, 16-byte nonce, 32+tag bytes", va.tag))
+		vAcc.merge(e.accepted(arun))
+		vWhole.merge(e.wholeCompared(arun, va.tag, "authentication tag"))
 	}
 	e.settle(c03RAead, oname+" wrong nonce size", pos, vNonce, "a nonce that is not 16 bytes always yields an error", "Open does not return an error for a nonce of the wrong size")
 	e.settle(c03RAead, oname+" partial block", pos, vBlocks, "a ciphertext that is not whole blocks always yields an error", "Open does not return an error for a ciphertext that is not a whole number of AES blocks")
 	e.settle(c03RAead, oname+" short input", pos, vShort, "an input shorter than the tag yields an error", "Open does not return an error for an input shorter than the tag")
 	e.settle(c03RAead, oname+" tag mismatch", pos, vFail, "a tag mismatch never reaches the plaintext return", "Open can return plaintext although hmac.Equal reported a mismatch")
+	e.settle(c03RAead, oname+" whole tag compared", pos, vWhole, "the accepting path compares tagSize bytes of the received tag with tagSize bytes of the computed one (tag sizes 16, 24, 32)", "Open accepts without comparing the whole tag")
 	e.settle(c03RAead, oname+" well-formed input", pos, vAcc, "well-formed input reaches the plaintext return and no panic", "Open rejects or panics on well-formed input")
 
 	// Seal: right-sized nonce, several plaintext lengths: no implicit panic, output produced
@@ -1387,13 +1456,15 @@ func (e *c03Env) checkKW() {
 		undecided("aeskw.Wrap/Unwrap signature changed")
 	}
 	args := func(n int64) []c03V { return []c03V{c03NonNilV(), c03SliceV(n)} }
-	var vU, vUF, vUA, vW, vWA c03Verdict
+	var vU, vUF, vUA, vUW, vW, vWA c03Verdict
 	for _, n := range []int64{0, 1, 7, 8, 9, 15, 17, 20, 23, 25, 31, 33} {
 		vU.merge(e.allRejected(e.run(e.kwScenario(false), unwrap, args(n), fmt.Sprintf("%d-byte wrapped key", n)), ""))
 	}
 	for _, n := range []int64{24, 40} {
-		vUF.merge(e.noSuccess(e.run(e.kwScenario(true), unwrap, args(n), fmt.Sprintf("%d-byte wrapped key, IV mismatch", n))))
+		frun := e.run(e.kwScenario(true), unwrap, args(n), fmt.Sprintf("%d-byte wrapped key, IV mismatch", n))
+		vUF.merge(e.cmpGuard(frun, e.noSuccess(frun)))
 		run := e.run(e.kwScenario(false), unwrap, args(n), fmt.Sprintf("%d-byte wrapped key", n))
+		vUW.merge(e.wholeCompared(run, 8, "recovered 64-bit IV (A)"))
 		w := e.accepted(run)
 		for _, o := range run.outs {
 			if c03Success(o) && w.bad == "" {
@@ -1421,6 +1492,9 @@ func (e *c03Env) checkKW() {
 	}
 	e.settle(c03RKW, FuncName(p, unwrap)+" malformed length", p.Pos(unwrap.Pos()), vU, "a wrapped key that is not n*8 bytes (n>=2... at least 16) always yields an error", "Unwrap does not return an error for a wrapped key of the wrong size (RFC 3394: n 64-bit blocks plus the IV block)")
 	e.settle(c03RKW, FuncName(p, unwrap)+" IV mismatch", p.Pos(unwrap.Pos()), vUF, "an IV mismatch never reaches the key return", "Unwrap can return key data although the integrity check failed")
+	e.settle(c03RKW, FuncName(p, unwrap)+" whole IV compared", p.Pos(unwrap.Pos()), vUW, "the accepting path compares all 8 bytes of A with the 8-byte default IV", "Unwrap accepts without comparing the whole recovered IV with A6A6A6A6A6A6A6A6")
+	c03CheckCounterEncoding(p, e.r, c03RKW, FuncName(p, wrap)+" step counter encoding", wrap, 32)
+	c03CheckCounterEncoding(p, e.r, c03RKW, FuncName(p, unwrap)+" step counter encoding", unwrap, 32)
 	e.settle(c03RKW, FuncName(p, unwrap)+" well-formed input", p.Pos(unwrap.Pos()), vUA, "well-formed input reaches the key return (len-8 bytes) without panic", "Unwrap fails on well-formed input")
 	e.settle(c03RKW, FuncName(p, wrap)+" malformed length", p.Pos(wrap.Pos()), vW, "key data that is not whole 64-bit blocks yields an error", "Wrap does not return an error for key data that is not a multiple of 8 bytes")
 	e.settle(c03RKW, FuncName(p, wrap)+" well-formed input", p.Pos(wrap.Pos()), vWA, "well-formed key data is wrapped into len+8 bytes without panic", "Wrap fails on well-formed input")
